@@ -78,6 +78,9 @@ func (s *Sym) ev(env *Env, e Expr) TV {
 	switch x := e.(type) {
 	case EInt:
 		v := x.V
+		if strings.Contains(v, ".") {
+			return TV{T: v, S: "Real"}
+		}
 		if strings.HasPrefix(v, "0x") {
 			n, err := strconv.ParseUint(v[2:], 16, 64)
 			if err != nil {
